@@ -151,8 +151,8 @@ Proof.
   apply Forall_forall. intros k Hk. apply block_keys_incl in Hk. rewrite Forall_forall in Hf. auto.
 Qed.
 
-Theorem merge_sched_invariant bl bl' base :
-  NoDup (map fst bl) -> Permutation bl' bl -> merge bl' base = merge bl base.
+Theorem merge_sched_invariant xc bl bl' base :
+  NoDup (map fst bl) -> Permutation bl' bl -> merge xc bl' base = merge xc bl base.
 Proof. intros Hd P. unfold merge. rewrite (sort_blocks_perm_eq bl bl' Hd P). reflexivity. Qed.
 
 (* ================= Part 3: the zero-length pass ================= *)
@@ -312,7 +312,7 @@ Qed.
 Theorem par_eq_seq f s : file_wf f -> sched_valid f s -> load_par s f = load_seq f.
 Proof.
   intros W [Pb Pz]. unfold load_par, load_seq, load_tail. rewrite par_results_eq. fold (outcomes f).
-  rewrite (merge_sched_invariant (blocks_of (outcomes f)) (s_blocks s)); [|apply ascending_nodup, block_keys_ascending, W | exact Pb].
+  rewrite (merge_sched_invariant (f_compressed f) (blocks_of (outcomes f)) (s_blocks s)); [|apply ascending_nodup, block_keys_ascending, W | exact Pb].
   rewrite (zero_len_commutes _ _ _ _ Pz). reflexivity.
 Qed.
 
@@ -531,7 +531,7 @@ Definition w_file : file :=
   mkFile [] (bs "1.5") [xe2; xe3; xcf; xd3] [(bs "Size", OInt 4); (bs "Root", ORef 1 0)] 3 false
     [ mkEntry 1 15 (PObj (1, 0)%N (ODict [(bs "Type", OName (bs "Catalog"))]));
       mkEntry 2 49 (PStm (2, 0)%N w_dict (bs "10 0 1 ") None (Some [((10, 0)%N, OInt 1)]));
-      mkEntry 3 128 (PStm (3, 0)%N w_dict (bs "10 0 2 ") None (Some [((10, 0)%N, OInt 2)])) ].
+      mkEntry 3 128 (PStm (3, 0)%N w_dict (bs "10 0 2 ") None (Some [((10, 0)%N, OInt 2)])) ] [].
 Definition w_s1 : sched := mkSched [] [(2%N, [((10, 0)%N, OInt 1)]); (3%N, [((10, 0)%N, OInt 2)])] [].
 Definition w_s2 : sched := mkSched [1] [(3%N, [((10, 0)%N, OInt 2)]); (2%N, [((10, 0)%N, OInt 1)])] [].
 
@@ -562,31 +562,37 @@ Lemma witness_repaired :
 Proof. split; vm_compute; reflexivity. Qed.
 
 (* A file on which everything happens: a stream (key 2) whose Length is object 10, defined only inside the object
-   streams of keys 3 and 4 with different values; the blocks arrive in reverse order, the range is cut in three. *)
+   streams of keys 3 and 4 with different values, the xref placing it in 4; object 11 in both streams and not in the xref;
+   the blocks arrive in reverse order, the range is cut in three. *)
 Definition ex_os (v : Z) : dict :=
   [(bs "Type", OName (bs "ObjStm")); (bs "N", OInt 1); (bs "First", OInt 5); (bs "Length", OInt 7); (bs "V", OInt v)].
 Definition ex_file : file :=
   mkFile (bs "0123456789") (bs "1.5") [] [(bs "Size", OInt 5)] 4 false
     [ mkEntry 1 100 (PObj (1, 0)%N (OName (bs "Plain")));
       mkEntry 2 2 (PStm (2, 0)%N [(K_Length, ORef 10 0)] [] (Some 2%N) None);
-      mkEntry 3 200 (PStm (3, 0)%N (ex_os 3) (bs "10 0 3 ") None (Some [((10, 0)%N, OInt 3)]));
-      mkEntry 4 300 (PStm (4, 0)%N (ex_os 5) (bs "10 0 5 ") None (Some [((10, 0)%N, OInt 5); ((1, 0)%N, ONull)])) ].
+      mkEntry 3 200 (PStm (3, 0)%N (ex_os 3) (bs "10 0 3 ") None (Some [((10, 0)%N, OInt 3); ((11, 0)%N, OBool true)]));
+      mkEntry 4 300 (PStm (4, 0)%N (ex_os 5) (bs "10 0 5 ") None
+                          (Some [((10, 0)%N, OInt 5); ((1, 0)%N, ONull); ((11, 0)%N, OBool false)])) ]
+    [(10, 4)%N].
 Definition ex_sched : sched :=
-  mkSched [1; 2] [(4%N, [((1, 0)%N, ONull); ((10, 0)%N, OInt 5)]); (3%N, [((10, 0)%N, OInt 3)])] [(2, 0)%N].
+  mkSched [1; 2] [(4%N, [((1, 0)%N, ONull); ((10, 0)%N, OInt 5); ((11, 0)%N, OBool false)]);
+                  (3%N, [((10, 0)%N, OInt 3); ((11, 0)%N, OBool true)])] [(2, 0)%N].
 
 Lemma example_holds :
   file_wf ex_file /\ sched_valid ex_file ex_sched /\
   s_blocks ex_sched <> blocks_of (outcomes ex_file) /\
   ~ blocks_agree (blocks_of (outcomes ex_file)) /\
-  lookup (d_objects (load_par ex_sched ex_file)) (2, 0)%N = Some (OStream [(K_Length, OInt 3)] (bs "234")) /\
+  lookup (d_objects (load_par ex_sched ex_file)) (2, 0)%N = Some (OStream [(K_Length, OInt 5)] (bs "23456")) /\
   lookup (d_objects (load_par ex_sched ex_file)) (1, 0)%N = Some (OName (bs "Plain")) /\
-  lookup (d_objects (load_par ex_sched ex_file)) (10, 0)%N = Some (OInt 3).
+  lookup (d_objects (load_par ex_sched ex_file)) (10, 0)%N = Some (OInt 5) /\
+  lookup (d_objects (load_par ex_sched ex_file)) (11, 0)%N = Some (OBool true).
 Proof.
   split; [unfold file_wf; cbn; repeat split; repeat constructor; lia|].
   split; [split; vm_compute; [apply perm_swap | apply Permutation_refl]|].
   split; [vm_compute; discriminate|].
   split.
-  - intro A. specialize (A (3%N, [((10, 0)%N, OInt 3)]) (4%N, [((1, 0)%N, ONull); ((10, 0)%N, OInt 5)]) (10, 0)%N (OInt 3) (OInt 5)).
+  - intro A. specialize (A (3%N, [((10, 0)%N, OInt 3); ((11, 0)%N, OBool true)])
+                           (4%N, [((1, 0)%N, ONull); ((10, 0)%N, OInt 5); ((11, 0)%N, OBool false)]) (10, 0)%N (OInt 3) (OInt 5)).
     assert (OInt 3 = OInt 5) as E; [|discriminate].
     apply A; vm_compute; auto.
   - repeat split; vm_compute; reflexivity.
